@@ -160,15 +160,70 @@ func (d *defInfo) singleDef(o types.Object) (defSite, bool) {
 // trivial getters replaced by the field they return, and generated protobuf getters replaced by
 // the field they read. Two expressions with the same canonical form denote the same value source.
 func (p *Program) Canon(fn *Func, x ast.Expr) string {
-	return p.canon(fn, x, 0)
+	if x == nil {
+		return ""
+	}
+	return p.canon(p.ownerOf(fn, x), x, 0)
+}
+
+// ownerOf: when a rule asks about a node that belongs to a looked-into helper (or to a literal) on
+// the current path, provenance must be computed in that instance (its parameters are bound to the
+// caller's arguments), whatever function the rule happens to be iterating over.
+func (p *Program) ownerOf(fn *Func, x ast.Node) *Func {
+	if fn == nil || p.cur == nil || x == nil || !x.Pos().IsValid() {
+		return fn
+	}
+	inside := func(f *Func) bool {
+		return f != nil && f.Body != nil && f.Body.Pos() <= x.Pos() && x.End() <= f.Body.End()
+	}
+	if inside(fn) {
+		// innermost instance on the path that contains the node, if the node sits in a nested literal
+		best := fn
+		if c, ok := p.cur.owner[x]; ok {
+			return c
+		}
+		for _, ev := range p.cur.path.Events {
+			if ev.Fn != nil && ev.Fn != best && inside(ev.Fn) && ev.Fn.Body.Pos() >= best.Body.Pos() && ev.Fn.Body.End() <= best.Body.End() && ev.Fn.rootIs(fn) {
+				best = ev.Fn
+			}
+		}
+		p.cur.owner[x] = best
+		return best
+	}
+	if c, ok := p.cur.owner[x]; ok {
+		return c
+	}
+	var best *Func
+	for _, ev := range p.cur.path.Events {
+		if inside(ev.Fn) {
+			if best == nil || (ev.Fn.Body.Pos() >= best.Body.Pos() && ev.Fn.Body.End() <= best.Body.End()) {
+				best = ev.Fn
+			}
+		}
+	}
+	if best == nil {
+		best = fn
+	}
+	p.cur.owner[x] = best
+	return best
+}
+
+func (f *Func) rootIs(g *Func) bool {
+	for h := f; h != nil; h = h.Outer {
+		if h == g {
+			return true
+		}
+	}
+	return false
 }
 
 // pathCtx makes canon path-aware: locals assigned more than once resolve to their most recent
 // definition on the path (or to the map slot they were stored into), and calls of inlined helpers
 // resolve to what the helper returned on this path.
 type pathCtx struct {
-	path *Path
-	use  map[ast.Node]int
+	path  *Path
+	use   map[ast.Node]int
+	owner map[ast.Node]*Func
 }
 
 func (p *Program) SetPath(path *Path) {
@@ -179,7 +234,7 @@ func (p *Program) SetPath(path *Path) {
 	if p.cur != nil && p.cur.path == path {
 		return
 	}
-	p.cur = &pathCtx{path: path, use: map[ast.Node]int{}}
+	p.cur = &pathCtx{path: path, use: map[ast.Node]int{}, owner: map[ast.Node]*Func{}}
 }
 
 // useIndex: index of the first event of fn on the current path whose node contains n.
